@@ -15,7 +15,8 @@ ID = 'C17'
 RULE = ('1-3 threads, each running a generated well-nested program (depth <=5, <=16 blocks) of enter/exit events over 17 scope '
         'managers (7 flag scopes with True/False/None, contextual_override with cascade, str_format, repr_format, view_options with '
         'nested dict options, coding.context, coding.permission incl. the empty permission, detour, apply_wrappers, dynamic_evaluate '
-        'per thread / process-wide with exit_fn, load_types_for_deserialization, timeit), with exceptions raised at generated points '
+        'per thread / process-wide with exit_fn, load_types_for_deserialization, timeit; plus "spawn" events that start a plain or a '
+        'with_contextual_override-wrapped thread inside the current scopes), with exceptions raised at generated points '
         'and caught 0-2 levels further out, interleaved at event granularity by a harness-owned deterministic schedule. After every '
         'event the probe vector of the executing thread (public getters and behavioural probes) must equal a reference interpreter '
         'of the documented nesting rules, and after every block exit it must equal the vector recorded before the block was entered. '
@@ -119,7 +120,7 @@ FLAGS = {
     'sealed': (flags.as_sealed, flags.is_under_sealed_scope, None, (True, False, None)),
     'partial': (flags.allow_partial, flags.is_under_partial_scope, None, (True, False, None)),
 }
-PER_THREAD = list(FLAGS) + ['ctx', 'strfmt', 'reprfmt', 'view', 'codectx', 'perm', 'detour', 'dyn', 'timeit']
+PER_THREAD = list(FLAGS) + ['ctx', 'strfmt', 'reprfmt', 'view', 'codectx', 'perm', 'detour', 'dyn', 'timeit', 'spawn']
 PROCESS_WIDE = ['wrappers', 'dyn_global', 'loadtypes']
 MANAGERS = PER_THREAD + PROCESS_WIDE
 
@@ -158,6 +159,8 @@ def _args(m):
     return st.sampled_from(['t1', 't2', ''])
   if m == 'wrappers':
     return st.just(None)
+  if m == 'spawn':
+    return st.sampled_from(['plain', 'wrapped'])
   if m == 'loadtypes':
     return st.lists(st.sampled_from(list(LOAD_TYPES)), min_size=1, max_size=2, unique=True)
   raise ValueError(m)
@@ -360,6 +363,8 @@ def _validate(node, depth=0):
     ok = isinstance(a, str)
   elif m == 'loadtypes':
     ok = isinstance(a, list) and a and all(t in LOAD_TYPES for t in a)
+  elif m == 'spawn':
+    ok = a in ('plain', 'wrapped')
   r = node.get('raise')
   if not ok or not (r is None or (isinstance(r, int) and not isinstance(r, bool) and 0 <= r <= 3)):
     raise core.InvalidCase(node)
@@ -381,6 +386,7 @@ class Runner:
     self.max_depth = 0
     self.nested_kinds = False
     self.timers = []
+    self.spawned = False
 
   def violate(self, law, detail, **sig):
     self.shared['violations'].append((law, detail, sig))
@@ -396,9 +402,39 @@ class Runner:
             self.tid, where, k, got.get(k), want[k], self.stack, self.shared['glob']), manager=k)
         return
 
+  def spawn(self, how):
+    """A thread started inside the current scopes sees none of them - unless contextual overrides are propagated explicitly."""
+    out = {}
+
+    def body():
+      out['v'] = probe()
+    fn = pg.with_contextual_override(body) if how == 'wrapped' else body
+    t = threading.Thread(target=fn)
+    t.start()
+    t.join(30)
+    self.events += 1
+    if 'v' not in out:
+      self.violate('raises', 'thread %d: the thread started inside the scopes did not finish' % self.tid, exc='timeout')
+      return
+    want = normalise_expected(expected([], self.shared['glob']))
+    if how == 'wrapped':
+      want['ctx'] = normalise_expected(expected(self.stack, self.shared['glob']))['ctx']
+    got = out['v']
+    skip = {'detour'} if any(m == 'wrappers' for m, _ in self.shared['glob']) else set()     # process-wide by documentation
+    for k in want:
+      if k not in skip and got.get(k) != want[k]:
+        self.violate('leaks-into-new-thread' if how == 'plain' or k != 'ctx' else 'not-propagated',
+                     'thread %d: a %s thread started inside the scopes %r reads %r = %r, expected %r' % (
+                         self.tid, how, self.stack, k, got.get(k), want[k]), manager=k)
+        return
+    self.spawned = True
+
   def run_block(self, node, depth):
     m, a = node['m'], node.get('a')
     is_glob = m in PROCESS_WIDE
+    if m == 'spawn':
+      self.spawn(a)
+      return
     if m in ('dyn', 'dyn_global'):
       # modes are not nested into each other
       other = 'dyn_global' if m == 'dyn' else 'dyn'
@@ -558,6 +594,8 @@ def execute(case):
     res.label('nested-kinds')
   if overlap[0]:
     res.label('overlapping-threads')
+  if any(r.spawned for r in runners):
+    res.label('spawned-thread')
   if (any(r.nested_kinds for r in runners) and exc_exits) or overlap[0]:
     res.nontrivial = True
   return res
@@ -601,6 +639,7 @@ CANON = {
     'timeit': ['t1', ''],
     'wrappers': [None],
     'loadtypes': [['T1'], ['T1b', 'T2']],
+    'spawn': ['plain', 'wrapped'],
 }
 
 
